@@ -529,6 +529,41 @@ fn wide_part(run: &Run, totals: &Mutex<Totals>) {
             }
         }
     }
+    // one gadget + 40 rows with a single unit entry on private columns: every one of the 40 commits, so a
+    // worker that is held back sees its snapshot overtaken by up to 41 commits (a catch-up shortcut
+    // that only triggers beyond some number of missed commits is invisible on the inputs above,
+    // where at most 17 rows commit; seed `C11-catch-up-without-diff`)
+    // The finder orders the rows of the phase by weight (sum of entry weights), lighter first.  Row A
+    // ([2,1] on the gadget columns) is the lightest, every other row is 1,2,2 on three private columns
+    // (it always commits its unit), and B is [1,2] on the gadget columns padded with 0, 1 or 2 extra
+    // private 2s, which puts it second, in the middle (by index) or last.
+    for (bextra, bpos) in [(0usize, 1usize), (1, 20), (2, 41)] {
+        let nrows = 42usize;
+        let ncols = 2 + 3 * 40 + 2;
+        let mut a = RMat::<Z>::zero(nrows, ncols);
+        let mut col = 2usize;
+        for r in 0..nrows {
+            if r == 0 {
+                a.set(r, 0, z(2));
+                a.set(r, 1, z(1));
+            } else if r == bpos {
+                a.set(r, 0, z(1));
+                a.set(r, 1, z(2));
+                for x in 0..bextra {
+                    a.set(r, ncols - 1 - x, z(2));
+                }
+            } else {
+                a.set(r, col, z(1));
+                a.set(r, col + 1, z(2));
+                a.set(r, col + 2, z(2));
+                col += 3;
+            }
+        }
+        for (rows_type, m) in [(true, a.clone()), (false, a.transpose())] {
+            let codes: Vec<u8> = m.e.iter().map(|x| if x.is_zero() { 0 } else if *x == z(1) { 1 } else { 2 }).collect();
+            cases.push(Case { ring: "Z", a: m.clone(), codes, rows_type, cond: Cond::One, entry: Entry::Phase(vec![]), workers: 2, choose_items: false, bound: Some(if th { 2 } else { 1 }), dev: true });
+        }
+    }
     run.par_for(cases.len(), |i| {
         run.add("wide_inputs", 1);
         run_case::<i64>(run, totals, &cases[i]);
@@ -621,7 +656,7 @@ fn main() {
         "write_lock_points_passed": t.retries_seen,
         "scheduling_points_passed": t.points,
         "replayed_twice_for_determinism": t.replays_checked,
-        "wide_inputs": {"count": run.get("wide_inputs"), "rule": "17 gadgets [2,1]/[1,2] on disjoint column pairs, 34x34, layouts 'A rows then B rows' and 'interleaved', Rows and Cols, phase-only and public entry, W = 2, every hand-over a deviation, bound 1 (thorough 2)"},
+        "wide_inputs": {"count": run.get("wide_inputs"), "rule": "17 gadgets [2,1]/[1,2] on disjoint column pairs, 34x34, layouts 'A rows then B rows' and 'interleaved', Rows and Cols, phase-only and public entry, W = 2, every hand-over a deviation, bound 1 (thorough 2); plus 42x124 inputs with one gadget and 40 rows that always commit (B second, in the middle or last in the finder's weight order)"},
         "bounds": {"workers": "2 (3 on 0/1 3x3; thorough: 3 and 4 on 4x3/4x4)", "preemption_bound": "2 (unbounded = complete for shapes <= 2x3/3x2; thorough 3 on 3x3)",
                    "note": "a schedule is the vector of worker (and item) choices at task start, before every acquisition of the shared RwLock (read and write), and at task end"},
         "exhaustive": true,
